@@ -1392,6 +1392,56 @@ def q_sink(cfg):
             res.ob(okb, {'rule': 'Q-15b', 'function': sh(f.name), 'fact': 'nothing receives the pointer after free_aligned', 'verdict': 'discharged' if okb else 'VIOLATION'})
             if not okb:
                 res.find(f, late[0].get('loc'), 'qsbr::deallocate hands the pointer to `%s` after free_aligned(pointer): the block has already been returned to the allocator when it is read (in assertion-enabled builds the callback olc_node_header::check_on_dealloc reads the lock of the freed node) - use of reclaimed memory' % late[0].get('name'), key='Q-15b:use-after-free', config=cfg.name)
+    # ---- Q-16b: noticing a new epoch in a quiescent state starts the per-epoch count afresh - in every configuration
+    for f in cfg.functions:
+        if not f.blocks or f.cls != PT or f.short != 'quiescent':
+            continue
+        res.count('registration sites')
+        res.functions.add(f.sig)
+
+        def assigns(e, name):
+            if is_assert_elem(e):
+                return None
+            if e.get('k') == 'binop' and e.get('op') == '=':
+                l = f.strip_casts(e['l'])
+                if isinstance(l, dict) and l.get('k') == 'member' and l.get('name') == name:
+                    return e['r']
+            if e.get('k') == 'call' and e.get('ck') == 'op' and e.get('op') == '=' and len(e.get('args', [])) == 2:
+                l = f.strip_casts(e['args'][0])
+                if isinstance(l, dict) and l.get('k') == 'member' and l.get('name') == name:
+                    return e['args'][1]
+            return None
+        ep = [(b, i) for b, i, e in f.elements() if assigns(e, 'last_seen_quiescent_state_epoch') is not None]
+        okq = bool(ep)
+        for b, i in ep:
+            # the reset follows on the straight line from the epoch update (same block or single-successor chain)
+            chain = [b]
+            x = b
+            while True:
+                ss = [y for y in f.succs(x) if y is not None]
+                if len(ss) != 1 or ss[0] in chain:
+                    break
+                x = ss[0]
+                chain.append(x)
+            found = False
+            for b2 in chain:
+                for i2, e2 in enumerate(f.blocks[b2]['elems']):
+                    r_ = assigns(e2, 'quiescent_states_since_epoch_change')
+                    if r_ is not None and isinstance(f.strip_casts(r_), dict) and str(f.strip_casts(r_).get('v')) == '0':
+                        found = True
+            if not found:
+                # ... or the counter is known to BE 0 here: the site is control-dependent on `counter == 0` (this thread
+                # changed the epoch itself, before counting the present quiescent state)
+                for c, val, cb in control_conditions(f, b):
+                    if isinstance(c, dict) and c.get('k') == 'binop' and c.get('op') in ('==', '!='):
+                        sides = [f.strip_casts(c['l']), f.strip_casts(c['r'])]
+                        if any(isinstance(x_, dict) and x_.get('k') == 'member' and x_.get('name') == 'quiescent_states_since_epoch_change' for x_ in sides) and any(isinstance(x_, dict) and x_.get('k') == 'int' and str(x_.get('v')) == '0' for x_ in sides) and ((c['op'] == '==') == bool(val)):
+                            found = True
+            if not found:
+                okq = False
+        res.ob(okq, {'rule': 'Q-16b', 'function': 'qsbr_per_thread::quiescent', 'fact': 'a newly observed epoch resets quiescent_states_since_epoch_change to 0', 'verdict': 'discharged' if okq else 'VIOLATION'})
+        if not okq:
+            res.find(f, f.loc, 'qsbr_per_thread::quiescent does not reset quiescent_states_since_epoch_change to 0 on the path on which it records a newly observed epoch (in this build configuration): the counter is the "have I already left the previous epoch?" flag, so a thread that has passed a quiescent state before never leaves the previous epoch again - the epoch stops advancing and no deferred deallocation is executed any more', key='Q-16b:quiescent-reset', config=cfg.name)
     # ---- Q-16
     ctor = [f for f in cfg.functions if f.blocks and f.cls == PT and f.d.get('ctor') and not f.params]
     resume = fn(cfg, PT, 'qsbr_resume')
